@@ -151,11 +151,21 @@ func Check_Sequences() {
 	sx.Assert(sx.EqBytes(set.GetHeaderBuffer(), fresh.GetHeaderBuffer()), "reused-set-header-differs-from-new-set")
 	var body []byte
 	nadds := sx.Range("adds", 1, maxAdds)
-	updAt := sx.Choose("updateAfter", nadds+1) // UpdateLenInHeader after this many adds (and again at the end)
+	updAt := sx.Choose("updateAfter", nadds+1)             // UpdateLenInHeader after this many adds (and again at the end)
+	rePrepareAt := sx.Choose("prepareAgainAfter", nadds+1) // == nadds: never
 	for i := 0; i < nadds; i++ {
 		if i == updAt {
 			set.UpdateLenInHeader()
 			fresh.UpdateLenInHeader()
+		}
+		if i > 0 && i == rePrepareAt {
+			// preparing again (e.g. to change the set id) keeps the records and their accounting
+			id = sx.U16("id2")
+			sx.Assume(id >= 256)
+			sx.Assert(set.PrepareSet(t, id) == nil, "prepare-again")
+			sx.Assert(fresh.PrepareSet(t, id) == nil, "prepare-again-fresh")
+			invariants(set, body)
+			sx.Reach("prepared-again")
 		}
 		kinds := menu[sx.Choose("elements", len(menu))]
 		path := sx.Choose("path", 3)
